@@ -41,6 +41,7 @@ func init() {
 			{ID: "C12-R12", Title: "OS implementations agree on the constants they answer with", Floor: 1, Run: osImplementationsAgreeOnConstants},
 			{ID: "C12-R13", Title: "attribute resolvers keep nothing across contexts", Floor: 1, Run: resolversKeepNothing},
 			{ID: "C12-R14", Title: "the virtual OS does not reach the process", Floor: 1, Run: virtualOSDoesNotReachTheProcess},
+			{ID: "C12-R15", Title: "the OS given to the VM comes before the context's", Floor: 1, Run: theOSGivenToTheVMComesFirst},
 		},
 	})
 }
@@ -604,14 +605,25 @@ func c12r3(c *core.Ctx) {
 			return true
 		})
 	}
-	good := len(order) >= 2 && order[0] == "ctx" && order[len(order)-1] == "default"
+	// both host-supplied sources are consulted before the default, which comes
+	// last (which of the two comes first is C12-R15's obligation)
+	hasCtx, hasOwn := false, false
+	for _, o := range order[:maxInt(len(order)-1, 0)] {
+		if o == "ctx" {
+			hasCtx = true
+		}
+		if o == "vm.os" {
+			hasOwn = true
+		}
+	}
+	good := len(order) >= 3 && hasCtx && hasOwn && order[len(order)-1] == "default"
 	for _, o := range order {
 		if o == "?" {
 			good = false
 		}
 	}
 	c.Check(good, "vm.VirtualMachine.getOS|precedence", posOf(p, god),
-		"getOS resolves the OS in the order context > WithOS option > default (found order: "+strings.Join(order, " > ")+")")
+		"getOS consults the OS given with WithOS and the OS carried by the context, and falls back to the default last (found order: "+strings.Join(order, " > ")+")")
 
 	// who-may-write VirtualMachine.os: Option closures and composite literals only
 	nw := 0
@@ -688,7 +700,10 @@ func c12r3(c *core.Ctx) {
 		}
 		return true
 	})
-	perRun := map[string]bool{"ip": true} // the instruction offset is per-run state, reset to 0 in a clone by design
+	perRun := map[string]bool{
+		"ip":           true, // the instruction offset is per-run state, reset to 0 in a clone by design
+		"globalsGiven": true, // set and cleared while one set of options is applied (applyOptions resets it before its loop); never read afterwards
+	}
 	var names []string
 	byName := map[string]*types.Var{}
 	for f := range optFields {
@@ -988,4 +1003,11 @@ func hostHelpers(p *core.Program, mediated []*packages.Package) map[*types.Func]
 		}
 	}
 	return out
+}
+
+func maxInt(a, b int) int {
+	if a > b {
+		return a
+	}
+	return b
 }
